@@ -13,7 +13,7 @@ from ..utils import exceptions as exc
 from ..utils.compat import (ForwardRef, Literal, Self, evaluate_forward_ref,
                             get_args, get_origin, UnionType)
 from ..utils.datastructures import unprovided
-from ..utils.functional import multi, pop
+from ..utils.functional import copy_value, multi, pop
 from ..utils.transform import TypeTransformer
 from ..settings import warning_settings
 from .options import RuntimeContext
@@ -981,11 +981,12 @@ class Constraints:
                 pass
             else:
                 raise ValueError
-        return v
+        # (a copy: a mutable constant must not be shared with the parsed results)
+        return copy_value(v)
 
     @classmethod
     def lax_const(cls, value, v):
-        return v
+        return copy_value(v)
 
     @classmethod
     def enum(cls, value, lst):
